@@ -8,6 +8,7 @@ import (
 	"image/color"
 	"image/png"
 	"os"
+	"strconv"
 	"strings"
 
 	"verif/h/core"
@@ -333,6 +334,26 @@ func runC01(c *core.Ctx) {
 				})
 			}
 		}
+		// (iii-b) every decimal field of every (text) seed replaced by boundary values
+		for i, a := range seeds {
+			i, a := i, a
+			if len(a.b) > 2000 {
+				continue
+			}
+			runs := digitRuns(a.b)
+			if len(runs) == 0 {
+				continue
+			}
+			withSrv(fmt.Sprintf("numeric/%d:%s", i, a.name), func(s *lab.Server) {
+				for _, r := range runs {
+					old := string(a.b[r[0]:r[1]])
+					for _, v := range numericBoundaries(old) {
+						m := append(append(append([]byte(nil), a.b[:r[0]]...), v...), a.b[r[1]:]...)
+						tcpScenario(c, s, svc, "numeric", fmt.Sprintf("%s decimal field %q at byte %d := %s %s", a.name, old, r[0], v, qs(m)), [][]byte{m})
+					}
+				}
+			})
+		}
 		// (iv) raw strings
 		withSrv("raw/1", func(s *lab.Server) {
 			tcpScenario(c, s, svc, "raw", "empty (connect, close)", nil)
@@ -622,4 +643,42 @@ func c01SSH(c *core.Ctx) {
 			s.Stop()
 		})
 	}
+}
+
+// digitRuns returns the [start,end) offsets of the maximal runs of ASCII digits (at most 12 digits, at most 8 runs).
+func digitRuns(b []byte) [][2]int {
+	var out [][2]int
+	for i := 0; i < len(b); {
+		if b[i] < '0' || b[i] > '9' {
+			i++
+			continue
+		}
+		j := i
+		for j < len(b) && b[j] >= '0' && b[j] <= '9' {
+			j++
+		}
+		if j-i <= 12 && len(out) < 8 {
+			out = append(out, [2]int{i, j})
+		}
+		i = j
+	}
+	return out
+}
+
+func numericBoundaries(old string) []string {
+	vals := []string{"0", "1", "255", "256", "65535", "65536", "2147483647", "2147483648", "4294967295", "4294967296", "9223372036854775807", "9223372036854775808", "18446744073709551615", "99999999999999999999", "-1"}
+	if n, err := strconv.ParseInt(old, 10, 64); err == nil {
+		vals = append(vals, strconv.FormatInt(n+1, 10))
+		if n > 0 {
+			vals = append(vals, strconv.FormatInt(n-1, 10))
+		}
+		vals = append(vals, strconv.FormatInt(n*1000000+7, 10))
+	}
+	var out []string
+	for _, v := range vals {
+		if v != old {
+			out = append(out, v)
+		}
+	}
+	return out
 }
